@@ -113,6 +113,8 @@ SignViol(pre, obs, x, prior) ==
             [l |-> l, inv |-> "NoEquivocation", class |-> x.t])
   \cup FailIf(x.t = "precommit" /\ x.v # HNil /\ ~RefQuorum(RefAt(IF x.h = obs.h THEN obs ELSE pre, x.h), SeqToSet(x.by) \cap Names),
             [l |-> l, inv |-> "PrecommitJustified", class |-> "no polka under the validator set the state prescribes for the height"])
+  \cup FailIf(x.t \in {"prevote", "precommit"} /\ x.bh > 0 /\ x.bh # x.h,
+            [l |-> l, inv |-> "VoteForHeldBlock", class |-> x.t \o " for a block of another height"])
   \cup FailIf(x.t \in {"prevote", "precommit"} /\ x.v # HNil /\ ~(x.v \in SeqToSet(x.held)),
             [l |-> l, inv |-> "VoteForHeldBlock", class |-> x.t \o " for a block the node does not hold at this height"])
 
